@@ -164,6 +164,10 @@ func c06StateRace(kind string) vs.Verdict {
 			}
 		}
 	})
+	// The reader of the peer's end is up before anything is sent: free-running (race pass) a thread's
+	// start may be delayed in virtual time, and two responses queued behind an unread pipe leave the
+	// second writer waiting for the connection's write mutex, which a bubble cannot wait out.
+	vs.WaitIdle()
 	send := func(line string) { io.WriteString(peer, line+"\n") }
 	const meta = `"_meta":{"io.modelcontextprotocol/protocolVersion":"2026-07-28","io.modelcontextprotocol/clientInfo":{"name":"c","version":"1"},"io.modelcontextprotocol/clientCapabilities":{}}`
 	const initialize = `{"jsonrpc":"2.0","id":1,"method":"initialize","params":{"protocolVersion":"2025-06-18","capabilities":{},"clientInfo":{"name":"peer","version":"1"}}}`
